@@ -4,6 +4,7 @@ let () =
   let handler : string list -> string = match comp with
     | "codec" -> M_codec.handle
     | "buffer" -> M_buffer.handle
+    | "cli" -> M_cli.handle
     | _ -> prerr_endline ("unknown component " ^ comp); exit 2 in
   let out = Buffer.create 65536 in
   (try while true do
